@@ -5,7 +5,8 @@ RULE = ("V: every (sandbox, path) of SshPath.tla's lattice is one TLC state: 11 
         "trailing separator, nested, not clean, root, '.', '..') x all absolute and relative paths of <= MaxLen components "
         "over {'..', '.', '', a, b} (MaxLen 4 quick / 5 thorough); each is written out under 3-4 spellings of the names "
         "(s/sx siblings both ways, s/t, a realistic name) and run through the real sshSanitizeFilePath; distinct = "
-        "(sandbox string, path string). T: seeded random concrete strings judged by TLC (Trace_SshPath)")
+        "(sandbox string, path string). T: seeded random concrete strings judged by TLC (Trace_SshPath). Call sites: start-cpu-profile / save-heap-profile / save-mutex-profile run with real directories (working directory "
+        "different from the sandbox) and 8 kinds of argument: every file that exists afterwards lies strictly inside the sandbox")
 ASSUMPTIONS = [
     "'accepted ... strictly inside, and every other path is refused' is read as: refused unless strictly inside (always), and "
     "accepted when strictly inside for every sandbox directory that has a name; for the nameless sandboxes '/', '.', '..' "
@@ -53,6 +54,13 @@ def run(ctx):
     if not musts.get('accept') or not musts.get('refuse'):
         from tools.check import MachineryError
         raise MachineryError('vacuous random driver: %s' % musts)
+    # call sites: the commands that write a file, with real directories (working directory != sandbox)
+    res2 = ctx.gotest('.', 'TestVerif_C45Cmd', name='cmd')
+    ctx.take_mismatches(res2)
+    ctx.traces += res2.get('evaluations', 0)
+    if not ctx.violations:
+        ctx.require_actions('cmd:start-cpu-profile', 'cmd:save-heap-profile', 'cmd:save-mutex-profile', 'created-inside', 'refused-outside',
+                            'path:relative', 'path:absolute-inside', 'path:relative-escape', 'path:absolute-outside')
     ctx.require_actions('accept:absolute-sandbox', 'refuse:absolute-sandbox', 'accept:relative-sandbox', 'refuse:relative-sandbox',
                         'refuse:root-sandbox', 'free:root-sandbox', 'refuse:dotdot-sandbox', 'T:absolute-sandbox')
 
